@@ -69,6 +69,83 @@ def set_deks(ahab, deks):
             c.signature_block.blob.dek = bytes.fromhex(dek)
 
 
+def history(case, workdir, ahab, reparse):
+    """Operation sequences on ONE object (public API only): a second update_fields()+export(); add_container() after a first
+    export; replacing an image after a first export. Every step is reported as bytes or as the error class."""
+    import copy
+    from spsdk.image.ahab.ahab_image import AHABImage
+    h = {}
+
+    def step(fn):
+        r = guarded(fn, seconds=120)
+        if r[0] == "ok":
+            return {"status": "ok", "export": bytes(r[1]).hex()}
+        return {"status": "e%d" % r[1], "exc": r[2] if len(r) > 2 else ""}
+
+    # (1) same object: update_fields(); export() once more
+    def again():
+        ahab.update_fields()
+        return ahab.export()
+    h["second"] = step(again)
+    if h["second"]["status"] == "ok":
+        def back():
+            p = reparse(bytes.fromhex(h["second"]["export"]))
+            return {"equal": len(p.ahab_containers) == len(ahab.ahab_containers)
+                    and all(a == b for a, b in zip(p.ahab_containers, ahab.ahab_containers)),
+                    "verify_errors": errors_of(p.verify())}
+        r = guarded(back, seconds=120)
+        h["second"]["parse"] = r[1] if r[0] == "ok" else "e%d" % r[1]
+        r = guarded(lambda: [container_view(c) for c in ahab.ahab_containers], seconds=120)
+        if r[0] == "ok":
+            h["second"]["containers"] = r[1]
+    # (2) export with the first containers only, then add_container(last container), update_fields(), export()
+    conts = case["config"]["containers"]
+    if len(conts) >= 2:
+        def grow():
+            cfg = copy.deepcopy(case["config"])
+            cfg["containers"] = conts[:-1]
+            a = AHABImage.load_from_config(cfg, search_paths=[workdir])
+            a.update_fields()
+            a.export()
+            ctype = a.container_type
+            a.add_container(ctype.load_from_config(a.chip_config, conts[-1]["container"], len(conts) - 1))
+            a.update_fields()
+            return a.export()
+        h["add_container"] = step(grow)
+    # (3) export, replace the first image of the first container (image setter), update_fields(), export();
+    #     reference: a fresh object configured with the other image
+    alt = case.get("alt_image")
+    if alt:
+        def change():
+            a = AHABImage.load_from_config(case["config"], search_paths=[workdir])
+            a.update_fields()
+            a.export()
+            a.ahab_containers[0].image_array[0].image = open(os.path.join(workdir, alt), "rb").read()
+            a.update_fields()
+            return a.export()
+        h["change_image"] = step(change)
+
+        def change_rehash():
+            a = AHABImage.load_from_config(case["config"], search_paths=[workdir])
+            a.update_fields()
+            a.export()
+            e = a.ahab_containers[0].image_array[0]
+            e.image = open(os.path.join(workdir, alt), "rb").read()
+            e.image_hash = None          # ask update_fields for a new hash (it keeps an existing one)
+            a.update_fields()
+            return a.export()
+        h["change_image_rehash"] = step(change_rehash)
+
+        def fresh():
+            cfg = copy.deepcopy(case["config"])
+            cfg["containers"][0]["container"]["images"][0]["image_path"] = alt
+            a = AHABImage.load_from_config(cfg, search_paths=[workdir])
+            a.update_fields()
+            return a.export()
+        h["change_image_fresh"] = step(fresh)
+    return h
+
+
 def run_case(case, workdir):
     from spsdk.image.ahab.ahab_image import AHABImage
     from spsdk.exceptions import SPSDKError
@@ -140,6 +217,9 @@ def run_case(case, workdir):
         out.update(r[1][1])
         rr = guarded(lambda: bytes(r[1][0].export()) == data, seconds=120)
         out["reexport"] = (bool(rr[1]) if rr[0] == "ok" else "e%d" % rr[1])
+
+    if case.get("history"):
+        out["history"] = history(case, workdir, ahab, reparse)
 
     flips = []
     for idx, bit in case.get("flips", []):
